@@ -289,12 +289,17 @@ func (e *endpointManager) checkStatus() {
 			}
 
 			firstTime, needCheck := adp.checkActive()
-			if !firstTime && !adp.status && !adp.closed && e.inRotation(ep) {
+			if !firstTime && !adp.closed && e.blockedInRotation(adp, ep) {
 				// a refresh that read the status just before the endpoint was
 				// blocked has put it back: take it out again
 				firstTime = true
 			}
 			if !firstTime && !needCheck {
+				if !adp.closed && e.healthyOutOfRotation(adp, ep) {
+					// the mirror case: a refresh that read the status just before a successful
+					// probe reinstated the endpoint has installed selectors without it
+					e.addAliveEp(ep)
+				}
 				continue
 			}
 
@@ -325,15 +330,32 @@ func (e *endpointManager) checkStatus() {
 	}
 }
 
-func (e *endpointManager) inRotation(ep endpoint.Endpoint) bool {
+// blockedInRotation reports whether ep is in rotation although its adapter is blocked. The
+// status is read under the lock, after the endpoint has been found: a probe that has just
+// succeeded marks the adapter healthy before it puts the endpoint back (under the same lock),
+// so an endpoint that is being reinstated is never taken for a blocked one.
+func (e *endpointManager) blockedInRotation(adp *AdapterProxy, ep endpoint.Endpoint) bool {
 	e.epLock.Lock()
 	defer e.epLock.Unlock()
 	for i := range e.activeEp {
 		if e.activeEp[i].Key == ep.Key {
-			return true
+			return !adp.status
 		}
 	}
 	return false
+}
+
+// healthyOutOfRotation reports whether ep is missing from the rotation although its adapter
+// is not blocked (status read under the lock, after the look-up, as in blockedInRotation).
+func (e *endpointManager) healthyOutOfRotation(adp *AdapterProxy, ep endpoint.Endpoint) bool {
+	e.epLock.Lock()
+	defer e.epLock.Unlock()
+	for i := range e.activeEp {
+		if e.activeEp[i].Key == ep.Key {
+			return false
+		}
+	}
+	return adp.status
 }
 
 func (e *endpointManager) addAliveEp(ep endpoint.Endpoint) {
